@@ -38,9 +38,11 @@ Guards (documented misuse or undocumented corners, decided on the model run and 
 identically on the real run by substituting a plain value for the returned Deferred):
   * a callback returning its own Deferred (never generated);
   * wait-cycles: the returned Deferred already waits, transitively, on the current one;
-  * re-entrant returns: the returned Deferred is at that moment on the interpreter's stack (in the
-    middle of running its own chain) - the docs do not say whether the waiter gets its momentary or
-    its final result;
+  * re-entrant returns of a Deferred that is at that moment EXECUTING one of its own callbacks -
+    the docs do not say whether the waiter gets its momentary or its final result.  (A returned
+    Deferred that is merely suspended in the chain stack - it has handed its result over and may
+    have callbacks left - is judged: it has a result, so unless it is paused the result (None) is
+    taken at once, whatever it still has queued; if paused, the returner waits behind the queue.)
   * unpause below the number of user pauses and double firing (C03) are never generated;
   * failures are compared by exception id, never by traceback; unhandled-error logging at GC is
     ignored.
@@ -88,7 +90,9 @@ FLOORS = {"ops_compared": 20000, "callback_events_compared": 10000, "chain_waits
           "reentrant_random_programs": 5000, "re_act_add_own": 5000, "re_act_add_other": 2000, "re_act_nested_runs": 3000,
           "re_act_ace": 3000, "re_act_pause": 1000, "re_chain_fired": 3000, "re_chain_ace": 3000, "re_top_ace": 5000,
           "re_act_suspended_pause": 2000, "re_act_suspended_add": 200, "re_act_suspended_unpause": 50,
-          "reentrant_suspended_programs": 2000, "programs_with_debugging_on": 2000}
+          "reentrant_suspended_programs": 2000, "programs_with_debugging_on": 2000,
+          "suspended_return_result_taken": 3000, "suspended_return_taken_with_callbacks_queued": 1000,
+          "suspended_paused_return_waited_on": 100}
 READY = True
 
 KEY_STRAND = "paused-chainee-strands-inner-callbacks"
@@ -134,7 +138,7 @@ class Model:
         self.st = {"waits": 0, "taken": 0, "handovers": 0, "eb_runs": 0, "sub_cycle": 0, "sub_inchain": 0, "depth": 0,
                    "act_add_own": 0, "act_add_other": 0, "act_pause": 0, "act_unpause": 0, "act_fire": 0, "act_ace": 0,
                    "act_skipped": 0, "act_nested_runs": 0, "act_suspended_pause": 0, "act_suspended_add": 0,
-                   "act_suspended_unpause": 0, "chain_fired": 0, "chain_ace": 0, "top_ace": 0, "top_skipped": 0}
+                   "act_suspended_unpause": 0, "taken_suspended": 0, "taken_suspended_with_queue": 0, "waits_suspended": 0, "chain_fired": 0, "chain_ace": 0, "top_ace": 0, "top_skipped": 0}
 
     # -- top-level operations -----------------------------------------------------------------
     def op(self, o):
@@ -305,14 +309,20 @@ class Model:
                 pass
             else:
                 r = self.ds[beh[1]]
-                if r is d or r.inchain or self.waits_on(r, d):
+                if r is d or (r.inchain and r.incb) or self.waits_on(r, d):
                     self.st["sub_inchain" if r.inchain else "sub_cycle"] += 1
                     self.subs[name] = name + "s"
                     d.result = ("V", name + "s")
                 elif r.called and not r.paused and not _isdef(r.result):
+                    # also when r is suspended in the chain stack with callbacks left: "if a Deferred
+                    # with a result is encountered, that result is taken and the loop proceeds"
                     d.result = r.result
                     r.result = None
                     self.st["taken"] += 1
+                    if r.inchain:
+                        self.st["taken_suspended"] += 1
+                        if r.cbs:
+                            self.st["taken_suspended_with_queue"] += 1
                     if act[1]:
                         self.touch.add(r.i)
                 else:
@@ -320,6 +330,8 @@ class Model:
                     d.paused += 1
                     r.cbs.append(("cont", d.i))
                     self.st["waits"] += 1
+                    if r.inchain:
+                        self.st["waits_suspended"] += 1
                     if act[1]:
                         self.touch.add(r.i)
         d.inchain -= 1
@@ -532,6 +544,11 @@ def check_program(ctx, nd, ops, origin):
     ctx.count("substituted_reentrant", st["sub_inchain"])
     ctx.count("model_handover_to_paused", sum(mph))
     ctx.maxi("model_nesting_depth", st["depth"])
+    if st["taken_suspended"]:
+        ctx.count("suspended_return_result_taken", st["taken_suspended"])
+        ctx.count("suspended_return_taken_with_callbacks_queued", st["taken_suspended_with_queue"])
+    if st["waits_suspended"]:
+        ctx.count("suspended_paused_return_waited_on", st["waits_suspended"])
     if origin[0] == "r" and origin[1] == "e":  # the re-entrant family
         for k in ("act_add_own", "act_add_other", "act_pause", "act_unpause", "act_fire", "act_ace", "act_skipped",
                   "act_nested_runs", "chain_fired", "chain_ace", "top_ace", "top_skipped", "act_suspended_pause",
@@ -853,7 +870,12 @@ def random_suspended(rng):
             a = ("fire", rng.choice(others), "v")
         else:
             a = ("pause", i)
-        ops.append(("add", o, "both", ("do", rng.choice(("val", "pass")), a), None))
+        x = rng.random()
+        if x < 0.25:
+            # a later callback of o returns i again: i is then suspended in the chain stack, fired
+            ops.append(("add", o, "both", ("ret", i), None))
+        else:
+            ops.append(("add", o, "both", ("do", ("ret", i) if x < 0.4 else rng.choice(("val", "pass")), a), None))
     if others and rng.random() < 0.4:
         w = rng.choice(others)
         ops.append(("add", w, "cb", ("ret", i), None))
